@@ -1179,14 +1179,16 @@ div_signed_int(Type& to, const Type x, const Type y, Rounding_Dir dir) {
     return V_EQ;
   }
   Type m = x % y;
-  if (m < 0) {
+  // The quotient was truncated towards zero: when inexact, it is above
+  // the exact one if and only if remainder and divisor have opposite signs.
+  if (m == 0) {
+    return V_EQ;
+  }
+  else if ((m < 0) != (y < 0)) {
     return round_lt_int_no_overflow<To_Policy>(to, dir);
   }
-  else if (m > 0) {
-    return round_gt_int_no_overflow<To_Policy>(to, dir);
-  }
   else {
-    return V_EQ;
+    return round_gt_int_no_overflow<To_Policy>(to, dir);
   }
 }
 
